@@ -7,6 +7,9 @@ import (
 	"errors"
 	"fmt"
 	"sync"
+	"time"
+
+	"github.com/mimiro-io/datahub/internal/jobs/source"
 
 	"github.com/mimiro-io/datahub/internal/server"
 )
@@ -249,4 +252,101 @@ func (h *VerifHandledJob) Idle() bool {
 	h.s.Runner.raffle.runningMu.Lock()
 	defer h.s.Runner.raffle.runningMu.Unlock()
 	return len(h.s.Runner.raffle.runningJobs) == 0
+}
+
+// ---- C11: probes, triggered jobs as the scheduler builds them, slot state ----
+
+// VerifProbe observes runs from inside the jobs' sources.
+type VerifProbe interface {
+	Enter(job string, full bool)
+	Exit(job string)
+}
+
+type verifProbedSource struct {
+	inner source.Source
+	probe VerifProbe
+	job   string
+	full  bool
+	delay time.Duration
+}
+
+func (p *verifProbedSource) GetConfig() map[string]interface{} { return p.inner.GetConfig() }
+func (p *verifProbedSource) StartFullSync()                    { p.inner.StartFullSync() }
+func (p *verifProbedSource) EndFullSync()                      { p.inner.EndFullSync() }
+func (p *verifProbedSource) ReadEntities(ctx context.Context, since source.DatasetContinuation, batchSize int,
+	processEntities func([]*server.Entity, source.DatasetContinuation) error) error {
+	p.probe.Enter(p.job, p.full)
+	defer p.probe.Exit(p.job)
+	time.Sleep(p.delay)
+	return p.inner.ReadEntities(ctx, since, batchSize, processEntities)
+}
+
+func (s *Scheduler) probe(j *job, probe VerifProbe, delay time.Duration) {
+	j.pipeline.spec().source = &verifProbedSource{inner: j.pipeline.spec().source, probe: probe, job: j.id,
+		full: j.pipeline.isFullSync(), delay: delay}
+}
+
+// VerifAddProbedJob does what AddJob does (verify, build the triggered jobs, persist the
+// configuration, register cron / event triggers) with a probe inside every job's source.
+func (s *Scheduler) VerifAddProbedJob(cfg *JobConfiguration, probe VerifProbe, delay time.Duration) error {
+	if err := s.verify(cfg); err != nil {
+		return err
+	}
+	js, err := s.toTriggeredJobs(cfg)
+	if err != nil {
+		return err
+	}
+	if err := s.Store.StoreObject(server.JobConfigIndex, cfg.ID, cfg); err != nil {
+		return err
+	}
+	for _, j := range js {
+		s.probe(j, probe, delay)
+		if err := s.Runner.addJob(j); err != nil {
+			return err
+		}
+	}
+	return nil
+}
+
+// VerifRunProbed does what RunJob does (manual run of a stored configuration) with a probe.
+func (s *Scheduler) VerifRunProbed(jobid string, jobType string, probe VerifProbe, delay time.Duration) error {
+	cfg, err := s.LoadJob(jobid)
+	if err != nil || cfg == nil || cfg.ID == "" {
+		return fmt.Errorf("could not load job %s", jobid)
+	}
+	pipeline, err := s.toPipeline(cfg, jobType)
+	if err != nil {
+		return err
+	}
+	j := &job{id: cfg.ID, title: cfg.Title, pipeline: pipeline, runner: s.Runner, dsm: s.DatasetManager}
+	s.probe(j, probe, delay)
+	if running := s.Runner.raffle.runningJob(cfg.ID); running != nil {
+		return fmt.Errorf("job %s already running", jobid)
+	}
+	s.Runner.startJob(j)
+	return nil
+}
+
+// VerifSlots reports the run slots.
+func (s *Scheduler) VerifSlots() (running, ticketsIncr, ticketsFull int) {
+	s.Runner.raffle.runningMu.Lock()
+	defer s.Runner.raffle.runningMu.Unlock()
+	return len(s.Runner.raffle.runningJobs), s.Runner.raffle.ticketsIncr, s.Runner.raffle.ticketsFull
+}
+
+// VerifTriggeredJobs builds the jobs of a configuration exactly as AddJob does (verify +
+// toTriggeredJobs: error handlers attached) without registering triggers.
+func (s *Scheduler) VerifTriggeredJobs(cfg *JobConfiguration) ([]*VerifHandledJob, error) {
+	if err := s.verify(cfg); err != nil {
+		return nil, err
+	}
+	js, err := s.toTriggeredJobs(cfg)
+	if err != nil {
+		return nil, err
+	}
+	var out []*VerifHandledJob
+	for _, j := range js {
+		out = append(out, &VerifHandledJob{j: j, s: s})
+	}
+	return out, nil
 }
